@@ -165,3 +165,23 @@ Proof. vm_compute. repeat split; reflexivity. Qed.
 
 Example ex_accepted : snd (split_M ex_s1) = None /\ snd (split_M ex_s2) = None /\ ex_s1 <> "" /\ ex_s2 <> "" /\ ends_sep ex_s1 = false /\ ends_sep ex_s2 = false.
 Proof. vm_compute. repeat split; try reflexivity; discriminate. Qed.
+
+(* a parameter (or error term) whose NAME is a reserved word of Python: in braces it is accepted, and the fixed-point theorem
+   holds for the statement as written (dq_ok for the layout with the braces); but the normal form it produces, `as[t]`, written
+   back in the statement syntax `as[0]`, is no term any more (the regex reads it as _INVALID) — dq_ok canon fails on kw_free *)
+Definition ex_kwpar_lay : layout := fun name i => if String.eqb name "as" then mkLay (SPar "" "") None else mkLay SVar None.
+Definition ex_kwpar_q : neq :=
+  mkNeq [NTerm "b" (IInt 0%Z); NChr " "] [NChr " "; NTerm "as" (IInt 0%Z); NChr " "; NChr "*"; NChr " "; NTerm "X" (IInt 0%Z)].
+Example reserved_word_parameter_refuted :
+  denorm_text ex_kwpar_lay ex_kwpar_q = "b = {as} * X" /\ dq_ok ex_kwpar_lay ex_kwpar_q = true /\
+  (exists syms, parse_equation_M "b = {as} * X" = POk syms /\
+     map (fun s => (sname s, stype s, sequation s)) syms
+     = [(Some "b", TEndogenous, Some "b[t] = as[t] * X[t]"); (Some "as", TParameter, None); (Some "X", TExogenous, None)]) /\
+  neq_text ex_kwpar_q = "b[t] = as[t] * X[t]" /\
+  denorm_text canon ex_kwpar_q = "b[0] = as[0] * X[0]" /\ dq_ok canon ex_kwpar_q = false /\
+  parse_equation_M "b[0] = as[0] * X[0]" = PErr ParserError.
+Proof.
+  split; [vm_compute; reflexivity|]. split; [vm_compute; reflexivity|]. split.
+  - eexists. split; vm_compute; reflexivity.
+  - repeat split; vm_compute; reflexivity.
+Qed.
